@@ -126,10 +126,10 @@ func sameField(a, b *types.Var) bool {
 
 // Store is one write to a struct field.
 type Store struct {
-	Node ast.Node   // the statement / call / key-value
-	LHS  ast.Expr   // the selector written (nil for composite literals)
-	RHS  ast.Expr   // the stored value when there is one
-	Kind string     // assign, opassign:+=, inc, dec, atomic:Store, complit, addr
+	Node ast.Node // the statement / call / key-value
+	LHS  ast.Expr // the selector written (nil for composite literals)
+	RHS  ast.Expr // the stored value when there is one
+	Kind string   // assign, opassign:+=, inc, dec, atomic:Store, complit, addr
 	Tok  token.Token
 }
 
